@@ -179,7 +179,7 @@ def parse_fields(line):
     return d
 
 
-COMPARED = ["VAL", "SP", "XC", "SK", "EFF", "CHK", "PFC", "EXP", "XEXP"]
+COMPARED = ["VAL", "VALO", "SP", "XC", "SK", "EFF", "CHK", "PFC", "EXP", "XEXP"]
 
 
 # ------------------------------------------------------------------ independent spec (written from the property text)
@@ -240,6 +240,23 @@ def spec(case):
             "wt_for_path": (r.wt if (r and r.wt is not None) else gwt)}
 
 
+def in_unit(tbits):
+    t = unbits(tbits)
+    return 0.0 <= t <= 1.0
+
+
+def config_valid(cfg, cli):
+    """validate_content_section on the configuration, with the CLI overrides applied when given."""
+    gmax, gwt = cfg.max, cfg.wt
+    if cli is not None:
+        if cli.max is not None:
+            gmax = cli.max
+        if cli.wt is not None:
+            gwt = cli.wt
+    return (in_unit(gwt) and (cfg.wa is None or cfg.wa < gmax)
+            and all((r.wa is None or r.wa < r.max) and (r.wt is None or in_unit(r.wt)) for r in cfg.rules))
+
+
 def parse_result(s):
     tag, limit, reason, stats, raw = s.split(";")
     return {"status": tag, "limit": int(limit), "reason": None if reason == "~" else dec(reason),
@@ -289,11 +306,14 @@ def oracle(case, d):
         fails.append("should_process %s expected %s" % (d["SP"], s["sp"]))
     if (d["XC"] == "1") != s["excluded"]:
         fails.append("is_content_excluded %s expected %s" % (d["XC"], s["excluded"]))
-    # configuration gate: thresholds in [0,1] and every absolute warn point strictly below its limit
-    t = unbits(case.cfg.wt)
-    valid = (0.0 <= t <= 1.0) and (case.cfg.wa is None or case.cfg.wa < case.cfg.max) and all(r.wa is None or r.wa < r.max for r in case.cfg.rules)
+    # configuration gate: every threshold (global and per rule) in [0,1], every absolute warn point strictly below
+    # the limit of its own level; check re-validates after the CLI overrides
+    valid = config_valid(case.cfg, None)
     if (d["VAL"] == "1") != valid:
         fails.append("validate_config_semantics %s expected %s" % (d["VAL"], valid))
+    valid_o = config_valid(case.cfg, case.cli)
+    if (d["VALO"] == "1") != valid_o:
+        fails.append("validate_config_semantics after the CLI overrides %s expected %s" % (d["VALO"], valid_o))
     # explain coherence: explain (same checker) reports exactly what check applied
     if ex["pathdiff"] or xex["pathdiff"]:
         fails.append("explain reports a different path")
